@@ -202,8 +202,10 @@ def build_case(rnd, model_source=None):
         return "deep-expression", {"m.emb": text}, "m.emb"
     from embgen import semgen
 
-    if k < 0.91:
+    if k < 0.90:
         return semgen.scope_substituted_source(rnd)
+    if k < 0.94:
+        return semgen.range_gate_source(rnd)
     if rnd.random() < 0.3:
         return semgen.import_pair(rnd)
     return model_source(rnd)
